@@ -93,8 +93,46 @@ func notTable(a string) string {
 	return a
 }
 
+// c03Grouped: operands wrapped in one or two pairs of parentheses, with
+// literals that contain the OTHER quote character, a closing parenthesis or a
+// backslash - whatever looks at the text to find groupings must read the
+// literals the way the grammar does.
+func c03Grouped(c *mon.Ctx, r *rand.Rand) {
+	datum := map[string]interface{}{"a": "5\"", "b": "x`y", "c": ")", "d": "((", "e": "\\\")"}
+	ops := []string{"a == `5\"`", "a != `5\"`", "b == \"x`y\"", "b == \"6`\"", "c == \")\"", "c == `)`", "d != `((`", "d == \"((\"", "a == `6\"`", "e == `\\\")`", "zz == `\"`", "b matches \"`\""}
+	A, B := ops[r.Intn(len(ops))], ops[r.Intn(len(ops))]
+	alone := func(text string) string {
+		ev, err, pan, _ := createEval(text)
+		if pan != "" || err != nil {
+			return "rejected"
+		}
+		return evaluate(ev, datum).Class3()
+	}
+	a, b := alone(A), alone(B)
+	if a == "rejected" || b == "rejected" {
+		c.Violation("C03 grouped operand-rejected", "a single comparison with a literal containing quotes / parentheses was rejected", map[string]any{"A": A, "B": B, "a": a, "b": b})
+		return
+	}
+	forms := []struct{ text, want string }{
+		{"((" + A + ")) or ((" + B + "))", orTable(a, b)}, {"((" + A + ")) and ((" + B + "))", andTable(a, b)}, {"(" + A + ") or (" + B + ")", orTable(a, b)}, {"((" + A + "))", a}, {"(((" + A + ")))", a},
+		{"(( " + A + " ) and ( " + B + " ))", andTable(a, b)}, {"not ((" + A + ")) or ((" + B + "))", orTable(notTable(a), b)}, {"((" + A + ") or (" + B + "))", orTable(a, b)}, {"(" + A + ") and ((" + B + ") or (" + A + "))", andTable(a, orTable(b, a))},
+	}
+	for _, f := range forms {
+		got := alone(f.text)
+		c.Evals(1)
+		if got != f.want {
+			c.Violation(fmt.Sprintf("C03 grouped got=%s want=%s", got, f.want), "a composite of parenthesised operands is not the table value of its operands", map[string]any{"composite": f.text, "A": A, "a": a, "B": B, "b": b, "observed": got, "expected": f.want})
+			return
+		}
+	}
+	c.Count("grouped_operand_cases")
+}
+
 func c03Run(c *mon.Ctx, idx int) {
 	r := c.RNG(idx)
+	if idx%20 == 4 {
+		c03Grouped(c, r)
+	}
 	node, opt := drawDatum(c, idx, r)
 	g := newEgen(r, node, opt)
 	g.pBroken = 0.3
@@ -604,7 +642,7 @@ func init() {
 		NumCases:    func(tier string) int { return tierN(tier, 8000, 150000) },
 		Run:         c03Run,
 		Required: func(tier string) []string {
-			l := []string{"quantified_operand", "collision_datum_cases", "colliding_twin_operands", "matches_twin_operands", "sibling_quantifier_operands", "long_chains", "very_long_chains", "cell:not/T", "cell:not/F", "cell:not/E"}
+			l := []string{"quantified_operand", "collision_datum_cases", "colliding_twin_operands", "matches_twin_operands", "sibling_quantifier_operands", "grouped_operand_cases", "long_chains", "very_long_chains", "cell:not/T", "cell:not/F", "cell:not/E"}
 			for _, op := range []string{"and", "or"} {
 				for _, a := range []string{"T", "F", "E"} {
 					for _, b := range []string{"T", "F", "E"} {
